@@ -327,8 +327,50 @@ def fault_family(ctx):
     return res
 
 
+PIPE_PAIRS = [
+    ["MKD pa", "CWD pa", "PWD"], ["MKD pa", "RMD pa", "MKD pa"], ["CWD d", "DELE g.txt", "PWD"], ["RNFR f.txt", "RNTO moved.txt", "MLST moved.txt"],
+    ["MKD q", "RNFR q", "RNTO q2", "CWD q2"], ["DELE f.txt", "MLST f.txt"], ["CWD d", "CDUP", "CWD d", "PWD"], ["MKD a1", "MKD a1/b1", "CWD a1/b1", "PWD"],
+    ["RMD d/sub", "CWD d/sub"], ["REST 3", "PWD", "REST 1"], ["CWD nope", "MKD nope", "CWD nope", "PWD"], ["USER bob", "PWD", "CWD d"],
+]
+
+
+def pipelined_family(ctx):
+    """several DEPENDENT commands in one segment, on a backend whose calls suspend, against the same commands sent
+    one by one: same replies to each command, same working directory, same tree - a later command is judged on the
+    state the earlier ones left"""
+    import latewire as LW
+
+    res = Result()
+    users, tree = S.USERS_ANON, S.TREE
+    jobs, meta = [], []
+    for lines in PIPE_PAIRS:
+        for delay in ((0.01,) if not ctx.thorough() else (0.01, 0.0, 0.1)):
+            jobs.append((users, [None] * len(users), tree, [("pipe", lines, delay)], ["USER bob"]))
+            jobs.append((users, [None] * len(users), tree, [("cmd", l) for l in lines], ["USER bob"]))
+            meta.append((lines, delay))
+    outs = LW.run_many(jobs)
+    for i, (lines, delay) in enumerate(meta):
+        a, b = outs[2 * i], outs[2 * i + 1]
+        res.cases += 1
+        res.count("pipelined_vs_sequential")
+        inp = {"kind": "pipelined-segment", "lines": lines, "backend_delay": delay}
+        if isinstance(a, str) or isinstance(b, str) or not a or not b:
+            res.disagreements.append({"correspondence": "C05 pipelined harness", "input": inp, "impl": a if isinstance(a, str) else b})
+            continue
+        res.distinct.add(("pipelined", tuple(lines), delay))
+        got = sorted(a[0]["replies"])
+        want = sorted(c for r in b for c in r["replies"])
+        st_a, st_b = a[0].get("state_after"), (b[-1].get("state_after") or None)
+        cwd_b = None
+        if a[0]["tree1"] != b[-1]["tree1"] or got != want:
+            res.oracle_failures.append({"input": inp, "what": "%r in one segment: replies %r, tree %s; one by one: replies %r, tree %s" % (
+                lines, a[0]["replies"], "same" if a[0]["tree1"] == b[-1]["tree1"] else "DIFFERENT", [r["replies"] for r in b], "-"), "signature": "C05:pipelined-differs-from-sequential"})
+    return res
+
+
 def correspondence(ctx):
     r = _run(ctx, gen_histories(ctx))
+    r.merge(pipelined_family(ctx))
     r.merge(fault_family(ctx))
     return r
 
@@ -340,10 +382,22 @@ def search(ctx, prior):
             hist.insert(0, ("disagreement", d["input"]))
     r = _run(ctx, hist, compare=False)
     r.merge(fault_family(ctx))
+    r.merge(pipelined_family(ctx))
     return r
 
 
 def replay(ctx, doc):
+    if doc["failure"]["input"].get("kind") == "pipelined-segment":
+        import latewire as LW
+
+        i = doc["failure"]["input"]
+        a = LW.run_plan((S.USERS_ANON, [None] * len(S.USERS_ANON), S.TREE, [("pipe", i["lines"], i["backend_delay"])], ["USER bob"]))
+        b = LW.run_plan((S.USERS_ANON, [None] * len(S.USERS_ANON), S.TREE, [("cmd", l) for l in i["lines"]], ["USER bob"]))
+        print("one segment:", a if isinstance(a, str) else a[0]["replies"])
+        print("one by one :", b if isinstance(b, str) else [r["replies"] for r in b])
+        if isinstance(a, str) or isinstance(b, str):
+            return True
+        return a[0]["tree1"] != b[-1]["tree1"] or sorted(a[0]["replies"]) != sorted(c for r in b for c in r["replies"])
     if doc["failure"]["input"].get("kind") == "backend-fault":
         from props import c13
 
